@@ -310,8 +310,19 @@ func c04Run(r *vt.Run, c c04Case) (points []sim.Point, devDesc string, found []c
 				if phase == "" {
 					phase = "steady"
 				}
-				devDesc = fmt.Sprintf("%s:%s@%s", phase, class, region)
-				_ = fmt.Sprintf("%s@%s:%s:%s", c.Dev.Kind, pt.Kind, pt.Op, role)
+				// the finding is identified by what the iteration was doing, the kind of fault, the exact call
+				// it hit, the adjust order and the cluster shape: the recorded non-atomicity of
+				// updateActiveNodes must not hide the same clause failing at another call or in another shape
+				_ = region
+				order := "replicas-first"
+				if c.MasterFirst {
+					order = "master-first"
+				}
+				shape := fmt.Sprintf("n%dw%d", c.N, c.W)
+				if c.Cascade {
+					shape += "+cascade"
+				}
+				devDesc = fmt.Sprintf("%s:%s@%s:%s[%s,%s]", phase, class, role, pt.Op, order, shape)
 			}
 			after := c04Check(h, c, conds)
 			list := h.ActiveNodes()
